@@ -246,7 +246,7 @@ PROPS = {
         assumptions=["layout harnesses use symFS prefix/suffix matching for the directory search; the real search (defaultFileIO) is checked separately by C06_glob on a modelled directory listing (os.Stat/Open/Readdirnames)",
                      "concrete file contents; exponents from a fixed list"],
         jobs=[
-            J("par2", "C06_layouts", bound="1 file in a sub-directory, 2 blocks with exponent pairs (0,1),(1,0),(2,7),(5,100),(1000,3),(3000,0); index and volume packet order: identity, reversed, rotated, evens-then-odds, duplicated; foreign-set and unknown-type packets interleaved", must_reach=["repaired"]),
+            J("par2", "C06_layouts", bound="body-less (length 64) unknown packets of the own and of a foreign set interleaved; 1 file in a sub-directory, 2 blocks with exponent pairs (0,1),(1,0),(2,7),(5,100),(1000,3),(3000,0); index and volume packet order: identity, reversed, rotated, evens-then-odds, duplicated; foreign-set and unknown-type packets interleaved", must_reach=["repaired"]),
             J("par2", "C06_glob", bound="the real defaultFileIO.FindWithPrefixAndSuffix (filepath.Glob, real SSA) on a modelled directory: base names of 1..3 symbolic bytes over { a space - [ ] * ? \\ }"),
             J("par2", "C06_glob_many", bound="the real directory search in a modelled directory of exactly 255 / 256 / 257 / 512 entries (Readdirnames with its count and end-of-directory semantics)"),
             J("par2", "C06_basename", bound="the real newDecoder + LoadParityData with an index path whose base name is 1..3 symbolic bytes over {x p a r 2 . space}: prefix and suffix handed to the directory search"),
